@@ -196,12 +196,16 @@ class AsyncServer(base_server.BaseServer):
                 if sid in self.sockets:  # pragma: no cover
                     del self.sockets[sid]
         else:
+            clients = self.sockets.copy()
             await asyncio.wait([
                 asyncio.create_task(client.close(
                     reason=self.reason.SERVER_DISCONNECT))
-                for client in self.sockets.values()
+                for client in clients.values()
             ])
-            self.sockets = {}
+            # only forget the clients that were closed above, not the ones
+            # that connected in the meantime
+            for sid in clients:
+                self.sockets.pop(sid, None)
 
     async def handle_request(self, *args, **kwargs):
         """Handle an HTTP request from the client.
